@@ -53,5 +53,5 @@ m = {
 json.dump(m, open(os.path.join(ROOT, 'MANIFEST.json'), 'w'), indent=1)
 open(os.path.join(ROOT, 'MANIFEST.hooks'), 'w').write(
     'guard: go build tag `verif`\n' + ''.join('hook commit: %s\n' % h for h in hook_commits) +
-    'files: store/verif_hooks.go (add-only; //go:build verif)\n')
+    'files: store/verif_hooks.go fsm/verif_hooks.go bft/verif_hooks.go p2p/verif_hooks.go (add-only; every file starts with //go:build verif)\n')
 print('MANIFEST.json: %d checks, %d not_applicable' % (len(checks), len(na)))
